@@ -7,7 +7,7 @@ import corr_loader as cl
 import sched_session as ss
 from props import C12
 
-SITES = ['session_run', 'save_session', 'keypress', 'omen_gen', 'restore_omen', 'mc_save', 'mc_load', 'mc_next']
+SITES = ['session_run', 'save_session', 'keypress', 'omen_gen', 'restore_omen', 'mc_save', 'mc_load', 'mc_next', 'pq_init', 'pq_update_save', 'pq_restore_base']
 TRUSTED = ['pickle round-trip of the enumerator state (target level, cursors, parse tree)', 'configparser round-trip of the .sav file'] + C12.TRUSTED[:1]
 ASSUMPTIONS = ['the interrupted Markov pre-terminal is not the very last pre-terminal of the run (then the main loop finds the queue '
                'empty and returns without saving - recorded separately if it occurs)', 'pre-terminal probabilities are distinct (ties are C08)']
@@ -76,6 +76,19 @@ def cli_interleaved_sessions(prop, tag, spec):
     return out, info
 
 
+def adjacent_ulp_spec(rng):
+    """the Markov level's probability (0.4 * 0.27 = 0.10800000000000001) is the double right above that of the pre-terminal popped after
+    it (0.3 * 0.36 = 0.108): the saved position and the interrupted level are one unit in the last place apart"""
+    spec = C12.small_ruleset(rng, markov_pos=0)
+    # a fixed OMEN model (level 1 = six strings of lengths 2 and 3), whatever the seed
+    spec['omen'] = {'ngram': 2, 'alphabet': ['a', 'b'], 'ip': [[0, 'a'], [1, 'b']], 'ep': [[0, 'a'], [0, 'b']],
+                    'cp': [[0, 'aa'], [1, 'ab'], [0, 'ba'], [1, 'bb']], 'ln': [10, 0, 1], 'keyspace': [[l, 1] for l in range(0, 19)]}
+    spec['terminals'] = {'D1': [['1', '0.36'], ['2', '0.2']], 'O1': [['!', '0.5']]}
+    spec['grammar'] = [['M', '0.4'], ['D1', '0.3'], ['O1', '0.05']]
+    spec['omen_prob'] = [['1', '0.27']]
+    return spec
+
+
 def run(ctx):
     rng = ctx.rng
     common.use_impl()
@@ -87,6 +100,8 @@ def run(ctx):
     sdir = common.scratch_dir('sess')
     for i in range(ctx.scale(8, 60)):
         spec = C12.small_ruleset(rng, markov_pos=rng.choice([0, 1, 2, 3]), rich=i % 3 == 1, wide=i % 3 == 2)
+        if i == 3:
+            spec = adjacent_ulp_spec(rng)
         d = common.write_ruleset(os.path.join(root, f"c15_{i % 5}"), spec)
         pcfg = common.load_grammar(d)
         units = ss.units_of(pcfg)
